@@ -824,7 +824,77 @@ def gen_AbsLen():
     write("AbsLen", abslen.lean_text(abslen.scan(REPO)), "magpylib/_src/obj_classes/class_BaseTransform.py, class_BaseGeo.py, class_Collection.py, utility.py, fields/field_wrap_BH.py (AST scan)")
 
 
-GENERATORS = {"AbsLen": gen_AbsLen, "KernTrace": gen_KernTrace, "StyleTemp": gen_StyleTemp, "Const": gen_Const, "Units": gen_Units, "Defaults": gen_Defaults, "StyleSchema": gen_StyleSchema, "Attr": gen_Attr, "PathPad": gen_PathPad, "Exits": gen_Exits, "Ndim": gen_Ndim, "Tol": gen_Tol, "CylSegGen": gen_CylSegGen, "ExcSync": gen_ExcSync, "InOut": gen_InOut}
+def gen_WriteSet():
+    """mutation sites of every function on the field-computation call path with the class of their root (fresh / parameter /
+    global), the calls of functions outside the analysed set, and the translator's own trusted tables (translate/writeset.py)"""
+    import writeset
+
+    try:
+        res = writeset.analyse(REPO)
+    except (KeyError, FileNotFoundError, SyntaxError, RuntimeError) as e:
+        raise Refusal(f"writeset: {type(e).__name__}: {e}") from e
+
+    def q(t):
+        return '"' + str(t).replace("\\", "\\\\").replace('"', '\\"').replace("\n", " ") + '"'
+
+    def strs(xs, per_line=8):
+        xs = list(xs)
+        rows = [", ".join(q(x) for x in xs[i:i + per_line]) for i in range(0, len(xs), per_line)]
+        return "[" + ",\n   ".join(rows) + "]"
+
+    b = lambda x: "true" if x else "false"  # noqa: E731
+    sites = ",\n".join(
+        f"  ⟨{q(s_.fn)}, {s_.line}, .{s_.kind}, {q(s_.target)}, {q(s_.attr)}, .{s_.root}, .{s_.region}, {b(s_.writes_arg)}⟩" for s_ in res.sites)
+    seen, ext_rows, n_fresh = set(), [], 0
+    for c in res.ext:
+        if c.args_fresh:
+            n_fresh += 1
+            continue
+        k = (c.fn, c.callee)
+        if k in seen:
+            continue
+        seen.add(k)
+        ext_rows.append(f"  ⟨{q(c.fn)}, {c.line}, {q(c.callee)}, false⟩")
+    t = res.tiling
+    body = (
+        "import MagpyVerif.Model.WriteSet\n"
+        "namespace MagpyVerif.Gen.WriteSet\nopen MagpyVerif.WriteSet\n\n"
+        "/-- the functions analysed: the roots (getB/getH/getJ/getM of every interface) closed under calls, property getters and dunders -/\n"
+        f"def functions : List String := {strs(res.functions, 4)}\n\n"
+        "/-- of these, the core field functions and what only they call (parameters = caller-owned arrays whose elements pre-exist) -/\n"
+        f"def fieldFunctions : List String := {strs(res.argmode, 4)}\n\n"
+        "/-- core field functions that write into one of their parameters (every call of one is a `consume` site) -/\n"
+        f"def argWriters : List String := {strs(res.consumers, 4)}\n\n"
+        "/-- every mutation site (function, line, kind, mutated expression, attribute/method, root class, region, writes a parameter of a core function) -/\n"
+        f"def sites : List Site := [\n{sites}]\n\n"
+        f"/-- calls of functions outside the analysed set that receive pre-existing values ({n_fresh} further external calls receive fresh values only) -/\n"
+        f"def extCalls : List ExtCall := [\n" + ",\n".join(ext_rows) + "]\n\n"
+        "/-- constructs the translator could not interpret -/\n"
+        f"def notes : List String := {strs(res.notes, 1)}\n\n"
+        "/-- getBH_level2: the loop that pads the paths and the loop that restores them run over the same list … -/\n"
+        f"def tiledIter : String := {q(t.get('tiledIter', ''))}\n"
+        f"def restoredIter : String := {q(t.get('restoredIter', ''))}\n"
+        "/-- … which is bound once and never mutated, and the `try` follows the padding statement directly -/\n"
+        f"def iterAssignedOnce : Bool := {b(t.get('iterAssignedOnce'))}\n"
+        f"def tilingDirectlyBeforeTry : Bool := {b(t.get('tilingDirectlyBeforeTry'))}\n\n"
+        "/-! the translator's trusted tables (translate/writeset.py), repeated here so that they are pinned by a theorem -/\n"
+        f"def freshDeep : List String := {strs(sorted(writeset.FRESH_DEEP))}\n"
+        f"def freshShallow : List String := {strs(sorted(writeset.FRESH_SHALLOW))}\n"
+        f"def alias : List String := {strs(sorted(writeset.ALIAS))}\n"
+        f"def outFuncs : List String := {strs(sorted(writeset.OUT_FUNCS))}\n"
+        f"def mutatingMethods : List String := {strs(sorted(writeset.MUTATING_METHODS))}\n"
+        f"def freshDeepMethods : List String := {strs(sorted(writeset.FRESH_DEEP_METHODS))}\n"
+        f"def freshShallowMethods : List String := {strs(sorted(writeset.FRESH_SHALLOW_METHODS))}\n"
+        f"def aliasMethods : List String := {strs(sorted(writeset.ALIAS_METHODS))}\n"
+        f"def exceptionSuffixes : List String := {strs(writeset.EXCEPTION_SUFFIXES)}\n"
+        f"def consumers : List String := {strs(sorted(writeset.CONSUMERS))}\n"
+        f"def consumeExempt : List String := {strs(writeset.CONSUME_EXEMPT)}\n"
+        f"def argNumericParams : List String := {strs(writeset.ARG_NUMERIC_PARAMS)}\n\n"
+        "end MagpyVerif.Gen.WriteSet\n")
+    write("WriteSet", body, "magpylib/_src/fields/*.py, utility.py, input_checks.py, obj_classes/*.py (AST; translate/writeset.py)")
+
+
+GENERATORS = {"AbsLen": gen_AbsLen, "KernTrace": gen_KernTrace, "StyleTemp": gen_StyleTemp, "Const": gen_Const, "Units": gen_Units, "Defaults": gen_Defaults, "StyleSchema": gen_StyleSchema, "Attr": gen_Attr, "PathPad": gen_PathPad, "Exits": gen_Exits, "Ndim": gen_Ndim, "Tol": gen_Tol, "CylSegGen": gen_CylSegGen, "ExcSync": gen_ExcSync, "InOut": gen_InOut, "WriteSet": gen_WriteSet}
 
 
 def main():
